@@ -2,7 +2,9 @@ package props
 
 import (
 	"fmt"
+	"os"
 	"path/filepath"
+	"regexp"
 	"strings"
 	"testing"
 	"unicode/utf8"
@@ -17,6 +19,89 @@ import (
 type C01Scenario struct {
 	Sync SyncScenario `json:"sync"`
 	Alt  *Transport   `json:"alt,omitempty"` // second schedule for the same scenario
+	// Kill: the prior state of the destination is what a process kill (of
+	// both ends) at scheduler step Kill.PerMille/1000 of an earlier, identical
+	// sync would have left behind - temporary files, half-created directories
+	// and all. The judged sync then starts from that state.
+	Kill *KillPoint `json:"kill,omitempty"`
+}
+
+// temporary names of renameio pending files and of the symlink replacement
+var reTempName = regexp.MustCompile(`^\.[^/]*[0-9]{6,}$`)
+
+type KillPoint struct {
+	PerMille int `json:"per_mille"`
+}
+
+// killedState replaces the destination by the state a kill at the drawn
+// step of an earlier identical sync leaves. It reports false (with res
+// filled in) when the scenario cannot be set up.
+func killedState(t *testing.T, sc *C01Scenario, lay Layout, res *Result) bool {
+	droot := destRootFor(&sc.Sync, lay)
+	// 1. measure: how many scheduler steps does the sync take?
+	m := RunSyncSession(t, &sc.Sync, lay, SessionHooks{})
+	res.AddSession(m)
+	if m.Harness != "" || m.Outcome != kernel.Finished || m.ClientErr != nil || m.ServerErr != nil || m.Panic != "" {
+		// the plain run of this scenario is judged by the ordinary mode
+		res.Invalid = "kill mode: the preliminary sync did not succeed"
+		return false
+	}
+	if err := prepare(&sc.Sync, lay); err != nil {
+		res.Invalid = err.Error()
+		return false
+	}
+	at := 1 + m.Stats.Steps*sc.Kill.PerMille/1000
+	copyDir := lay.Dst + ".killed"
+	fstree.RemoveAll(copyDir)
+	var copyErr error
+	copied := false
+	k := RunSyncSession(t, &sc.Sync, lay, SessionHooks{OnStep: func(step int) error {
+		if step < at {
+			return nil
+		}
+		// every goroutine of both ends is parked: this is the instant of the kill
+		if _, err := os.Lstat(droot); err != nil {
+			copyErr = os.MkdirAll(copyDir, 0o755) // destination not created yet
+		} else {
+			copyErr = fstree.CopyTree(droot, copyDir)
+		}
+		copied = true
+		return fmt.Errorf("killed at step %d", step)
+	}})
+	res.AddSession(k)
+	if k.Harness != "" {
+		res.Inconclusive = k.Harness
+		return false
+	}
+	if !copied || copyErr != nil {
+		res.Invalid = fmt.Sprintf("kill mode: no state captured (%v)", copyErr)
+		return false
+	}
+	fstree.RemoveAll(droot)
+	if err := os.MkdirAll(filepath.Dir(droot), 0o755); err != nil {
+		res.Invalid = err.Error()
+		return false
+	}
+	if err := os.Rename(copyDir, droot); err != nil {
+		res.Invalid = err.Error()
+		return false
+	}
+	res.Probe("kill_states", 1)
+	if snap, err := fstree.Snapshot(droot); err == nil {
+		tmp := 0
+		for n := range snap {
+			if reTempName.MatchString(filepath.Base(n)) {
+				tmp++
+			}
+		}
+		if tmp > 0 {
+			res.Probe("kill_states_with_temporary_files", 1)
+		}
+		if len(snap) > 0 {
+			res.Probe("kill_states_mid_transfer", 1)
+		}
+	}
+	return true
 }
 
 type c01 struct{}
@@ -229,6 +314,9 @@ func (c01) Generate(seed uint64, tier string, index int) any {
 		alt := g.TransportFor(minCap, 2*treeBytes(&sc.Sync.Src)+treeBytes(&sc.Sync.Dst))
 		sc.Alt = &alt
 	}
+	if sc.Alt == nil && arr != "A4" && g.R.Intn(5) == 0 {
+		sc.Kill = &KillPoint{PerMille: g.R.Intn(1001)}
+	}
 	return sc
 }
 
@@ -291,6 +379,15 @@ func (c01) Run(t *testing.T, scenario any, job *Job, res *Result) {
 		if err := prepare(&sc.Sync, lay); err != nil {
 			res.Invalid = err.Error()
 			return
+		}
+		if sc.Kill != nil {
+			if sc.Sync.Arr == "A4" || sc.Kill.PerMille < 0 || sc.Kill.PerMille > 1000 {
+				res.Invalid = "kill mode needs a scheduled arrangement"
+				return
+			}
+			if !killedState(t, sc, lay, res) {
+				return
+			}
 		}
 		srcSnap, err := fstree.Snapshot(lay.Src)
 		if err != nil {
